@@ -282,16 +282,23 @@ Definition rs_get_state (s : rs_state) : rs_snapshot :=
   {| sn_p2e := rs_p2e s; sn_excl := rs_excl s;
      sn_cft := if rs_allow_dup s then rs_cft s else None;
      sn_restrict := rs_restrict s |}.
-(* clone_from_state: RandomSearcher(config_space, points_to_evaluate=[], debug_log=self._debug_log,
-   allow_duplicates=self._allow_duplicates) then _restore_from_state(state): what is REBUILT *)
+(* clone_from_state: RandomSearcher(config_space, points_to_evaluate=[],
+     debug_log=False if self._debug_log is None else self._debug_log,
+     allow_duplicates=self._allow_duplicates) then _restore_from_state(state): what is REBUILT.
+   _restore_from_state sets _rc_returned_pos = set() exactly when the state carries
+   restrict_configurations (None otherwise).
+   (Before the fix commits for findings F-C16-3 / F-C16-4 the constructor got debug_log=None —
+   AssertionError for every searcher created with debug_log=False — and _rc_returned_pos kept the
+   constructor's None, AttributeError at the clone's first random get_config.) *)
 Definition rs_clone (self : rs_state) (st : rs_snapshot) : res rs_state :=
-  match rs_ctor [] (if rs_debug self then DLPrinter else DLNone) (rs_allow_dup self) None
+  match rs_ctor [] (if rs_debug self then DLPrinter else DLBool false) (rs_allow_dup self) None
                 (rs_size self) (rs_retries self) with
   | Err e => Err e
   | Ok n =>
       Ok (rs_with n (sn_p2e st) (sn_excl st)
                   (if rs_allow_dup n then sn_cft st else rs_cft n)
-                  (sn_restrict st) (rs_rcpos n))
+                  (sn_restrict st)
+                  (match sn_restrict st with Some _ => Some [] | None => None end))
   end.
 
 (* events of a history, as the scheduler issues them to a searcher *)
@@ -378,16 +385,24 @@ Definition gs_get_config (s : gs_state) : gs_state * option C :=
   | [] => gs_next_candidate (S (S (length (gs_grid s)))) s
   end.
 
-Record gs_snapshot := { gn_p2e : list C; gn_next : nat; gn_init : excl }.
+(* get_state also returns the ordered grid (hp_values_combinations); [None] = a state written
+   by an older version, which lacks this entry *)
+Record gs_snapshot := { gn_p2e : list C; gn_next : nat; gn_init : excl; gn_grid : option (list C) }.
 Definition gs_get_state (s : gs_state) : gs_snapshot :=
-  {| gn_p2e := gs_p2e s; gn_next := gs_next s; gn_init := gs_init s |}.
-(* clone_from_state: GridSearcher(config_space, num_samples, metric, shuffle_config=self._shuffle_config)
-   — no random seed (the default one is used), no allow_duplicates (False), points_to_evaluate=None —
-   then _restore_from_state *)
+  {| gn_p2e := gs_p2e s; gn_next := gs_next s; gn_init := gs_init s; gn_grid := Some (gs_grid s) |}.
+(* clone_from_state: GridSearcher(config_space, num_samples, metric, shuffle_config=self._shuffle_config,
+   allow_duplicates=self._allow_duplicates) — no random seed (the default one is used),
+   points_to_evaluate=None — then _restore_from_state, which installs the grid order of the state
+   if the state has one.
+   (Before the fix commits for findings F-C16-1 / F-C16-2 the state had no grid, so the clone kept
+   the grid shuffled with the default seed, and allow_duplicates was not passed on.) *)
 Definition gs_clone {Seed} (base : list C) (shuffle : Seed -> list C -> list C) (default_seed : Seed)
            (default_pts : list C) (self : gs_state) (st : gs_snapshot) : gs_state :=
-  let n := gs_ctor base shuffle default_pts default_seed (gs_shuffle self) false in
-  gs_with n (gn_p2e st) (gn_next st) (gn_init st).
+  let n := gs_ctor base shuffle default_pts default_seed (gs_shuffle self) (gs_allow_dup self) in
+  {| gs_p2e := gn_p2e st;
+     gs_grid := match gn_grid st with Some g => g | None => gs_grid n end;
+     gs_next := gn_next st; gs_init := gn_init st;
+     gs_allow_dup := gs_allow_dup n; gs_shuffle := gs_shuffle n |}.
 
 Inductive gs_event := GGet | GOther.   (* register_pending / evaluation_failed / update: no effect *)
 
